@@ -44,6 +44,8 @@ type RecRes struct {
 	Closed int
 	// MaxEvents caps the callbacks of one request (reset by Take); exceeding it panics with OpCapPanic.
 	MaxEvents int
+	// Failures counts the lookups and calls that this resource answered with an error
+	Failures int
 }
 
 const OpCapPanic = "harness-op-cap: the request made more callbacks than the cap (runaway execution)"
@@ -92,6 +94,7 @@ func (r *RecRes) GetCode(ctx context.Context, sym string) ([]byte, error) {
 	r.rec(ctx, "code", sym)
 	b, ok := r.App.CodeOf(sym)
 	if !ok {
+		r.Failures++
 		return nil, fmt.Errorf("no code for node %q", sym)
 	}
 	return b, nil
@@ -101,6 +104,7 @@ func (r *RecRes) GetTemplate(ctx context.Context, sym string) (string, error) {
 	l := r.rec(ctx, "template", sym)
 	t, ok := r.App.TemplateFor(sym, l)
 	if !ok {
+		r.Failures++
 		return "", fmt.Errorf("no template for node %q", sym)
 	}
 	return t, nil
@@ -115,6 +119,7 @@ func (r *RecRes) FuncFor(ctx context.Context, sym string) (resource.EntryFunc, e
 	r.rec(ctx, "funcfor", sym)
 	f, ok := r.App.Funcs[sym]
 	if !ok {
+		r.Failures++
 		return nil, fmt.Errorf("no function for symbol %q", sym)
 	}
 	return func(ctx context.Context, s string, input []byte) (resource.Result, error) {
@@ -131,6 +136,7 @@ func (r *RecRes) FuncFor(ctx context.Context, sym string) (resource.EntryFunc, e
 		}
 		r.Events = append(r.Events, Event{Kind: "call", Sym: sym, Lang: l, Session: ctxSession(ctx), Input: string(input), Res: res})
 		if fr.Err {
+			r.Failures++
 			return resource.Result{Status: fr.Status}, fmt.Errorf("function %s failed on call %d", sym, n)
 		}
 		out := resource.Result{Content: fr.Content, Status: fr.Status}
